@@ -158,6 +158,8 @@ class SimRaw(io.RawIOBase):
             buf.extend(b"\0" * (self.pos - len(buf)))
         buf[self.pos:end] = data
         self.pos = end
+        if not self.kp:
+            self.world.touch(self.path)
 
     def seek(self, off, whence=0):
         act = None
@@ -310,6 +312,11 @@ class World:
             self.fs[path] = bytearray(data)
         self.unreadable = set(unreadable)
         self.dirs = set(dirs)
+        # modification times: every pre-existing file carries the same one
+        # (trees restored with cp -p / rsync -t / tar look like that); each
+        # later write advances a logical clock
+        self.mtime = {path: 1000 for path in self.fs}
+        self.clock = 2000
         self.anon = {}
         self.anon_n = 0
         self.stdin_bytes = stdin.encode("utf-8") if isinstance(stdin, str) \
@@ -439,6 +446,7 @@ class World:
                 raise PermissionError(errno.EACCES, "Permission denied", path)
             if not (self.frozen or self.dead):
                 self.fs[path] = bytearray()      # O_TRUNC | O_CREAT
+                self.touch(path)
             self._after(act)
             raw = SimRaw(self, path, False, True)
             buf = io.BufferedWriter(raw, buffer_size=max(1, self.bin_buf
@@ -466,6 +474,27 @@ class World:
             return buf
         return io.TextIOWrapper(buf, encoding=encoding or "utf-8",
                                 errors=errors, newline=newline)
+
+    def touch(self, path):
+        self.clock += 1
+        self.mtime[path] = self.clock
+
+    def stat(self, path, *args, **kwargs):
+        """os.stat for simulated paths (size, mtime, regular file/dir)."""
+        import stat as statmod
+        if not self.owns(path):
+            return _REAL_STAT(path, *args, **kwargs)
+        path = self.norm(path)
+        self.step("stat", path, 0, faultable=False)
+        if path in self.dirs:
+            return os.stat_result((statmod.S_IFDIR | 0o755, 0, 0, 1, 0, 0, 0,
+                                   1000, 1000, 1000))
+        if path not in self.fs:
+            raise FileNotFoundError(errno.ENOENT,
+                                    "No such file or directory", path)
+        when = self.mtime.get(path, 1000)
+        return os.stat_result((statmod.S_IFREG | 0o644, 0, 0, 1, 0, 0,
+                               len(self.fs[path]), when, when, when))
 
     def temporary_file(self):
         self.anon_n += 1
@@ -519,6 +548,7 @@ class World:
                                     path)
         if not (self.frozen or self.dead):
             del self.fs[path]
+            self.mtime.pop(path, None)
         self._after(act)
 
     def copy2(self, src, dst):
@@ -539,6 +569,8 @@ class World:
                     fdst.write(chunk)
                     fdst.flush()
         act = self.step("copystat", dst, 0)
+        if not (self.frozen or self.dead):
+            self.mtime[dst] = self.mtime.get(src, 1000)
         self._after(act)
         return dst
 
@@ -567,6 +599,7 @@ TOOLS = {
 }
 
 _REAL_OPEN = builtins.open
+_REAL_STAT = os.stat
 _TRACED_DIRS = None
 
 
@@ -613,6 +646,7 @@ def _patched(world, tool_mod, argv0, argv):
     stderr = _Capture()
     try:
         setattr_(builtins, "open", routed_open)
+        setattr_(os, "stat", world.stat)
         for mod in set([tool_mod] + [sys.modules[m] for m in TOOLS.values()
                                      if m in sys.modules]):
             for name, repl in (("remove", world.remove),
